@@ -141,3 +141,39 @@ package crypto
 //@   at call bytes.Index : assert sameslice(arg[0], inBuffer[inIndex:]) && sameslice(arg[1], TagBegin)
 //@   at call ExtractSerializedContainer : assert sameslice(arg[0], inBuffer[inIndex:])
 //@   at call EnvelopeCallbackHandler.OnCryptoEnvelope : assert sameslice(arg[1], ret(ExtractSerializedContainer)[1])
+
+// ---- poison records (C15) ---------------------------------------------------------------------------------------
+// The callbacks run iff callbacks are configured and the container decrypts under the poison keys; they run before
+// anything is returned, and the value handed back is the container with the callbacks' own error.
+//@ func (recognizer PoisonRecordDetector) OnCryptoEnvelope(ctx context.Context, container []byte) (out []byte, err error)
+//@   props C15
+//@   ensures alarm-raised: ret(PoisonRecordCallbackStorage.HasCallbacks#0)[0] && called(DataProcessor.Process) && ret(DataProcessor.Process)[1] == nil ==> called(PoisonRecordCallbackStorage.Call) && err == ret(PoisonRecordCallbackStorage.Call)[0]
+//@   ensures no-alarm-without-poison-key-match: called(PoisonRecordCallbackStorage.Call) ==> ret(DataProcessor.Process)[1] == nil
+//@   ensures ordinary-data-silent: called(DataProcessor.Process) && ret(DataProcessor.Process)[1] != nil ==> !called(PoisonRecordCallbackStorage.Call) && err == nil
+//@   ensures disabled-without-callbacks: !ret(PoisonRecordCallbackStorage.HasCallbacks#0)[0] ==> !called(DataProcessor.Process) && err == nil
+//@   ensures value-unchanged: sameslice(out, container)
+//@   at call DataProcessor.Process : assert recv == recognizer.processor && sameslice(arg[0], container) && arg[1].Keystore == ret(NewPoisonRecordKeyStoreWrapper)[0]
+//@   at call NewPoisonRecordKeyStoreWrapper : assert arg[0] == recognizer.keyStore
+//@   at call PoisonRecordCallbackStorage.Call : assert recv == recognizer.callbacks
+
+// The key store handed to the decryptor serves only poison keys (all of them, rotated included), whatever id is asked.
+//@ func (p PoisonRecordKeyStoreWrapper) GetClientIDSymmetricKeys(id []byte) (keys [][]byte, err error)
+//@   props C02 C15
+//@   ensures sameslice(keys, ret(RecordProcessorKeyStore.GetPoisonSymmetricKeys)[0]) && err == ret(RecordProcessorKeyStore.GetPoisonSymmetricKeys)[1]
+//@   at call RecordProcessorKeyStore.GetPoisonSymmetricKeys : assert recv == p.keyStore
+
+//@ func (p PoisonRecordKeyStoreWrapper) GetServerDecryptionPrivateKeys(id []byte) (keys []*keys.PrivateKey, err error)
+//@   props C02 C15
+//@   ensures sameslice(keys, ret(RecordProcessorKeyStore.GetPoisonPrivateKeys)[0]) && err == ret(RecordProcessorKeyStore.GetPoisonPrivateKeys)[1]
+//@   at call RecordProcessorKeyStore.GetPoisonPrivateKeys : assert recv == p.keyStore
+
+//@ func (p PoisonRecordKeyStoreWrapper) GetClientIDSymmetricKey(id []byte) (key []byte, err error)
+//@   props C02 C15
+//@   ensures sameslice(key, ret(RecordProcessorKeyStore.GetPoisonSymmetricKey)[0]) && err == ret(RecordProcessorKeyStore.GetPoisonSymmetricKey)[1]
+//@   at call RecordProcessorKeyStore.GetPoisonSymmetricKey : assert recv == p.keyStore
+
+//@ func (recognizer *EnvelopeDetector) AddCallback(callback EnvelopeCallbackHandler)
+//@   props C15
+//@   safety
+//@   ensures appended-last: len(recognizer.callbacks) == old(len(recognizer.callbacks)) + 1 && recognizer.callbacks[len(recognizer.callbacks)-1] == callback
+//@   ensures order-kept: forall(i, 0, old(len(recognizer.callbacks)), recognizer.callbacks[i] == old(recognizer.callbacks[i]))
